@@ -15,7 +15,7 @@ CUT_ASSUMPTION = ('content cuts for protocol-only checks: tree.BuildTree -> empt
                   'values.PathValuesToGnmiChange -> empty SetRequest (the plugin verdict / device answer do not depend on content in the harness)')
 
 
-def run(ctx, pid, configs, explanation, bounds):
+def run(ctx, pid, configs, explanation, bounds, assumptions=None, harness='v2'):
     """configs: list of (name, cfg, queries, contract prefixes)"""
     quick = ctx.tier == 'quick'
     for entry in configs:
@@ -28,5 +28,5 @@ def run(ctx, pid, configs, explanation, bounds):
                                                               'ssa_instructions': res['instrs'], 'extract_s': res['extract_s'], 'cuts': res['cuts']})
         bounds.setdefault('bmc_queries', []).extend({'config': name, 'kind': q['kind'], 'depth': q['depth'], 'preds': q['preds'], 'result': q['result'],
                                                      'solve_s': q.get('solve_s')} for q in res['queries'])
-    driver.write_evidence(ctx, 'model_checking', explanation, bounds, ASSUMPTIONS + [CUT_ASSUMPTION],
-                          trusted=['go/ssa', 'gosmt executor', 'z3 (bit-blast + sat tactic)', 'harness stores/environment of /verif/harness/v2'])
+    driver.write_evidence(ctx, 'model_checking', explanation, bounds, assumptions or (ASSUMPTIONS + [CUT_ASSUMPTION]),
+                          trusted=['go/ssa', 'gosmt executor', 'z3 (bit-blast + sat tactic)', 'harness stores/environment of /verif/harness/' + harness])
